@@ -32,7 +32,7 @@ THEOREMS = [
     'Nb.C19.annot_zero_rgb_witness',
     'Nb.C19.annot_zero_vertices_orig_counterexample',
     'Nb.C19.annot_narrow_ctab_orig_counterexample',
-    'Nb.C19.annot_empty_ctab_unlabeled_witness',
+    'Nb.C19.annot_empty_ctab_unlabeled_orig_counterexample',
     'Nb.C19.annot_fill_ignores_last_column',
     'Nb.C19.annot_recolour_chain',
     'Nb.C19.mgh_shape_roundtrip',
@@ -44,7 +44,7 @@ THEOREMS = [
     'Nb.C19.readMghX_refines',
     'Nb.C19.pack_rgb_generated',
     'Nb.C19.morph_writer_limits_generated',
-    'Nb.C19.annot_unsigned_labels_witness',
+    'Nb.C19.annot_unsigned_labels_orig_counterexample',
     'Nb.C19.annot_fix_proposal_conservative',
     'Nb.C19.gen_constants_consistent_wave3',
     'Nb.C19.gen_constants_consistent',
@@ -74,8 +74,8 @@ ASSUMPTIONS = [
     'mghResave (readMghX/writeMghX carry dof and goodRASFlag verbatim); update_header leaves delta/Mdc/Pxyz_c alone '
     'because the image affine IS the header affine (np.allclose on finite values: generated Mdc/Pxyz_c/delta are finite '
     'and moderate); a set_zooms that changes the voxel sizes (float re-derivation from the affine) is outside the model',
-    'write_annot with an unsigned label dtype is modelled by writeAnnotUnsigned (np.max(labels, initial=-1) raises '
-    'OverflowError under NumPy >= 2); input dtypes/containers of the writers (float16/32/64/long double/integer '
+    'write_annot is the repaired one (f0d22687, cb244bc8): labelled-only lookup, any integer label dtype, list labels; '
+    'the pre-fix variants are kept as counterexample models; input dtypes/containers of the writers (float16/32/64/long double/integer '
     'coordinates and morph values, every integer face/label/table dtype, list/tuple/bytes/object-array names, '
     'plain dict / list-valued / int32-float32 volume_info) are exercised by the generators; the model speaks about the '
     'logical values',
@@ -107,12 +107,6 @@ RULE = ('streams: geom (0..n vertices, 0..m faces, float32 bit patterns incl. su
         'A case is non-trivial when it carries at least one vertex/value/voxel; distinct by sha1 of its data.')
 
 PENDING_FINDINGS = [
-    {'property': 'C19', 'signature': 'annot:unsigned-labels-overflow', 'status': 'open',
-     'what': 'write_annot with a label array of an unsigned integer dtype (uint8/16/32/64, all vertices labelled) raises '
-             'OverflowError under NumPy 2: np.max(labels, initial=-1) - the repair of the zero-vertex case - cannot '
-             'represent -1 in the labels dtype',
-     'input': {'op': 'annot', 'orig': False, 'fill': True, 'ncol': 4, 'labels': [0], 'ctab': [[1, 0, 0, 0]],
-               'names': ['a'], 'dt_l': 'u1'}},
     {'property': 'C19', 'signature': 'annot:zero-packed-rgb-referenced', 'status': 'open',
      'what': 'a vertex labelled with a colour-table entry whose packed RGB annotation value is 0 reads back as -1 '
              '(write_annot/read_annot; .annot format uses 0 for "unlabeled")',
@@ -123,10 +117,6 @@ PENDING_FINDINGS = [
              '(HeaderDataError "Data should be shape (x, y, z)")',
      'input': {'op': 'mgh', 'shape': [1, 1, 1, 1], 'dt': 'u1', 'data': [0], 'zooms': [1065353216] * 3, 'perm': 0,
                'trans': [0, 0, 0], 'setz': None, 'sets': [], 'ext': '.mgh'}},
-    {'property': 'C19', 'signature': 'annot:empty-ctab-unlabeled-vertices', 'status': 'open',
-     'what': 'write_annot with a colour table of zero entries and >=1 (unlabeled, -1) vertices raises IndexError '
-             '(ctab[:, -1][labels] indexes an empty column before the -1 labels are replaced by 0)',
-     'input': {'op': 'annot', 'orig': False, 'fill': True, 'ncol': 4, 'labels': [-1], 'ctab': [], 'names': []}},
 ]
 
 GEN_PATH = os.path.join(LEAN, 'NibabelModel', 'Generated', 'C19.lean')
@@ -438,8 +428,7 @@ def mk_morph(d, stream='morph'):
 def mk_annot(d, stream='annot'):
     rows = ';'.join(':'.join(str(int(x)) for x in (r + [0])[:5]) for r in d['ctab']) if d['ctab'] else '-'
     names = ';'.join((n.encode('utf-8').hex() or '_') for n in d['names']) if d['names'] else '-'
-    op = 'annotU' if d.get('dt_l', 'i8').startswith('u') else 'annot'     # unsigned label dtype: see PENDING_FINDINGS
-    line = (f"C19 {op} {int(d['orig'])} {int(d['fill'])} {int(d['ncol'] == 5)} {commas(d['labels'])} "
+    line = (f"C19 annot {int(d['orig'])} {int(d['fill'])} {int(d['ncol'] == 5)} {commas(d['labels'])} "
             f"{rows} {names}")
     return Case(line, d, ('annot', _h(d)) if d['labels'] else None, stream)
 
@@ -616,7 +605,10 @@ def impl_morph(case):
 def annot_arrays(d):
     n = len(d['ctab'])
     ctab = np.array(d['ctab'], dtype=np.int64).reshape(n, d['ncol']).astype(DT_NP[d.get('dt_t', 'i8')])
-    labels = np.array(d['labels'], dtype=np.int64).astype(DT_NP[d.get('dt_l', 'i8')])
+    dt_l = d.get('dt_l', 'i8')
+    if dt_l.startswith('u') and any(l < 0 for l in d['labels']):
+        dt_l = 'i8'                            # an unsigned array cannot hold -1: the caller's array is signed then
+    labels = np.array(d['labels'], dtype=np.int64).astype(DT_NP[dt_l])
     names = list(d['names'])
     nk = d.get('names_kind')
     if nk == 'bytes':
@@ -627,7 +619,10 @@ def annot_arrays(d):
         names = tuple(names)
     elif nk == 'array':
         names = np.array(names, dtype=object)
-    return relayout(labels, d.get('lay_l')), relayout(ctab, d.get('lay_t')), names
+    labels = relayout(labels, d.get('lay_l'))
+    if d.get('lab_list') and len(labels):                      # `np.asarray(labels)`: plain lists (incl. -1 entries) are accepted
+        labels = [int(x) for x in labels]
+    return labels, relayout(ctab, d.get('lay_t')), names
 
 
 def impl_annot(case):
@@ -985,11 +980,6 @@ def oracle_annot(case, out):
     n = len(d['ctab'])
     packs = [pack(r) for r in d['ctab']]
     if not out.startswith('ok ') or ' RERR' in out:
-        if d.get('dt_l', 'i8').startswith('u') and out == 'ERR:OverflowError':
-            return ('[unsigned-labels] write_annot raised OverflowError for a label array of an unsigned integer dtype '
-                    f'({d["dt_l"]}): np.max(labels, initial=-1)')
-        if n == 0 and d['labels'] and out == 'ERR:IndexError':
-            return '[empty-ctab] write_annot raised IndexError for a zero-entry colour table with unlabeled vertices'
         return f'annotation write/read raised for a valid annotation: {out[-60:]}'
     l2, c2, n2 = case.extra['res']
     want_ctab = np.array([list(r[:4]) + [p] for r, p in zip(d['ctab'], packs)], dtype=np.int64).reshape(n, 5)
@@ -1184,7 +1174,7 @@ def oracle_annot2(case, out):
         return None
     p1 = [pack(r) for r in d['ctab']]
     p2 = [pack(r) for r in d['rgb']]
-    if len(set(p2)) != n or 0 in p1 or 0 in p2 or (n == 0 and d['labels']):
+    if len(set(p2)) != n or 0 in p1 or 0 in p2:
         return None                    # format limits are reported by the `annot` stream
     if not out.startswith('ok '):
         return f'read -> recolour -> write(fill_ctab=True) -> read raised for a valid annotation: {out[-60:]}'
@@ -1231,10 +1221,6 @@ def signature(case, what):
         n = len(d['ctab'])
         if what.startswith('[zero-packed]') and any(l >= 0 and l < n and pack(d['ctab'][l]) == 0 for l in d['labels']):
             return 'annot:zero-packed-rgb-referenced'
-        if what.startswith('[unsigned-labels]') and d.get('dt_l', 'i8').startswith('u') and all(l >= 0 for l in d['labels']):
-            return 'annot:unsigned-labels-overflow'
-        if what.startswith('[empty-ctab]') and n == 0 and d['labels'] and all(l == -1 for l in d['labels']):
-            return 'annot:empty-ctab-unlabeled-vertices'
         return 'annot:other'
     if d['op'] == 'mgh':
         if what.startswith('[single-frame-4d]') and len(d['shape']) == 4 and d['shape'][3] == 1:
@@ -1247,10 +1233,6 @@ def in_known_class(d):
     """input classes of the open findings (format limits)"""
     if d['op'] == 'annot':
         n = len(d['ctab'])
-        if d.get('dt_l', 'i8').startswith('u'):
-            return True
-        if n == 0 and d['labels']:
-            return True
         return any(0 <= l < n and pack(d['ctab'][l]) == 0 for l in d['labels'])
     if d['op'] == 'mgh':
         return len(d['shape']) == 4 and d['shape'][3] == 1
@@ -1278,7 +1260,7 @@ def _shrink_candidates(case):
             yield MK[op]({**d, k: v}, case.stream)
         if k == 'dt_l' and d.get(k, v).startswith('u') and d.get(k) != 'u1' and all(0 <= l < 256 for l in d['labels']):
             yield MK[op]({**d, k: 'u1'}, case.stream)
-    for k in ('names_kind', 'vol_kind', 'aslist'):
+    for k in ('names_kind', 'vol_kind', 'aslist', 'lab_list'):
         if d.get(k):
             yield MK[op]({**d, k: None}, case.stream)
     if op == 'annot':
@@ -1560,7 +1542,7 @@ def gen_annot(rng, zero_p=0.08, big=False, narrow=False):
     nvtx = rng.choice([0, 1, 2, 3, 5, 8, 20]) if not big else rng.randrange(50, 400)
     pu = rng.choice([0.0, 0.2, 0.5, 1.0])
     labels = [(-1 if (n == 0 or rng.random() < pu) else rng.randrange(n)) for _ in range(nvtx)]
-    if n == 0 and rng.random() < 0.9:
+    if n == 0 and rng.random() < 0.4:
         labels = []
     names = []
     for _ in range(n):
@@ -1583,17 +1565,14 @@ def gen_annot(rng, zero_p=0.08, big=False, narrow=False):
     return {'op': 'annot', 'orig': rng.random() < 0.15, 'fill': fill, 'ncol': ncol, 'labels': labels,
             'ctab': ctab, 'names': names, 'lay_l': rng.choice(LAY_W), 'lay_t': rng.choice(LAY_W),
             'dt_l': dt_l, 'dt_t': dt_t,
-            'names_kind': rng.choice([None, None, None, 'bytes', 'mixed', 'tuple', 'array'])}
+            'names_kind': rng.choice([None, None, None, 'bytes', 'mixed', 'tuple', 'array']),
+            'lab_list': bool(labels) and rng.random() < 0.1}     # an EMPTY list has no integer dtype (documented input: ndarray)
 
 
 def gen_annot2(rng):
     """history: write, read, recolour ctab[:, :3] of what was read (5th column goes stale), write again, read"""
     d = gen_annot(rng, zero_p=0.0, big=rng.random() < 0.02)
     n = len(d['ctab'])
-    if d['dt_l'].startswith('u'):
-        d['dt_l'] = 'i8'
-    if n == 0:
-        d['labels'] = []
     if not d['fill'] and d['ncol'] == 5:
         d['ctab'] = [r[:4] + [pack(r)] for r in d['ctab']]
     old = {pack(r) for r in d['ctab']}
